@@ -654,6 +654,12 @@ def clone_cases(tier, seed):
             if form in ("colreal", "vec1dreal") and any(np.abs(catalog.ket(2, k).imag).max() > 0 for k in ens):
                 continue
             out.append(emit({"kets": ens, "prior": "uniform", "reps": 1, "form": form}))
+    # "natural" form: every ket in the narrowest dtype that holds it (float for real kets, complex otherwise), real ones first - one list
+    # then mixes dtypes (after seeded change C09-5: the need for conjugation was decided from the first state's dtype only)
+    for name, ens in NAMED_ENSEMBLES.items():
+        out.append(emit({"kets": ens, "prior": "uniform", "reps": 1, "form": "natural"}))
+    for sub in itertools.combinations(kets, 3):
+        out.append(emit({"kets": list(sub), "prior": "ramp", "reps": 1, "form": "natural"}))
     for a, b in itertools.combinations(kets, 2):
         for form in ("vec1d", "dm", "vec1dreal"):
             if form == "vec1dreal" and any(np.abs(catalog.ket(2, k).imag).max() > 0 for k in (a, b)):
@@ -719,6 +725,11 @@ def clone_check(case):
         states = [v.real.copy() for v in vs]
     elif form == "dm":
         states = [np.outer(v, v.conj()) for v in vs]
+    elif form == "natural":
+        order = sorted(range(n), key=lambda i: (np.abs(vs[i].imag).max() > 0, i))
+        vs = [vs[i] for i in order]
+        p = np.array([p[i] for i in order])
+        states = [(v.real.copy() if np.abs(v.imag).max() == 0 else v.copy()).reshape(-1, 1) for v in vs]
     else:
         raise KeyError(form)
     probs = np.array(p, dtype=float) if form == "col_nd" else [float(x) for x in p]
